@@ -47,8 +47,8 @@ func init() {
 		Meta: func(tier string) fw.Meta {
 			na, nb := c11Sizes(tier)
 			return fw.Meta{N: na + nb, Level: "fault_enumeration", Chunk: 8, CaseTimeoutS: 240, MinNT: 60,
-				Rule: "(a) one case = one seeded input set (1..4 ascending inputs, overlapping for the compacting merges, disjoint for Merge) run through Merge / MergeCompact with both reductions / MergeCompactIterator: single fault at EVERY Next position of EVERY input (variants: fail-then-continue, fail-repeatedly, fail-then-end) and at EVERY WriteNext position, plus sampled double faults; oracle: error returned, or output identical to the fault-free output. (b) one case = one SimpleDB scenario in a sub-process (flush of a memstore, or one compaction cycle over 2..4 tables) with one fault: k-th data append / k-th index append of the stream writer, p-th record of an input iterator, or RLIMIT_FSIZE = L bytes (kernel-level EFBIG at the first write crossing L); oracle: process stopped or error returned, never success with reads differing from the model; after a reported error the same process and a fresh process must still read the model. evaluations = fault runs; non-trivial = fault actually reached; distinct by (input hash, fault)",
-				MinObs: map[string]int64{"merger_fault_runs": 3000, "merger_faults_reached": 2000, "merger_errors_reported": 1000, "db_fault_scenarios": 100, "db_fault_reached": 40, "db_process_stopped_or_error": 30, "rlimit_faults_reached": 5},
+				Rule:        "(a) one case = one seeded input set (1..4 ascending inputs, overlapping for the compacting merges, disjoint for Merge) run through Merge / MergeCompact with both reductions / MergeCompactIterator: single fault at EVERY Next position of EVERY input (variants: fail-then-continue, fail-repeatedly, fail-then-end) and at EVERY WriteNext position, plus sampled double faults; oracle: error returned, or output identical to the fault-free output. (b) one case = one SimpleDB scenario in a sub-process (flush of a memstore, or one compaction cycle over 2..4 tables) with one fault: k-th data append / k-th index append of the stream writer, p-th record of an input iterator, or RLIMIT_FSIZE = L bytes (kernel-level EFBIG at the first write crossing L); oracle: process stopped or error returned, never success with reads differing from the model; after a reported error the same process and a fresh process must still read the model. evaluations = fault runs; non-trivial = fault actually reached; distinct by (input hash, fault)",
+				MinObs:      map[string]int64{"merger_fault_runs": 3000, "merger_faults_reached": 2000, "merger_errors_reported": 1000, "db_fault_scenarios": 100, "db_fault_reached": 40, "db_process_stopped_or_error": 30, "rlimit_faults_reached": 5},
 				Assumptions: []string{"hook-level failures are clean failures; RLIMIT_FSIZE failures are real EFBIG results of write(2) through the real buffered writers", "a flush failure ends the process (log.Panicf) — the recoverability of what it leaves behind belongs to C02"},
 			}
 		},
